@@ -5,7 +5,7 @@
    polygons are detected (ConvexFacts). *)
 From Coq Require Import ZArith List Bool Reals Lra Lia Psatz.
 From PV Require Import Num NumR model.Geom proofs.RealFacts proofs.LatticeFacts proofs.SiteFacts proofs.OverlapFacts
-  proofs.ConvexFacts proofs.EnclosedFacts proofs.PackingFacts proofs.PolygonFacts proofs.RadiusFacts.
+  proofs.ConvexFacts proofs.ShapeFacts proofs.EnclosedFacts proofs.PackingFacts proofs.PolygonFacts proofs.RadiusFacts.
 Import ListNotations.
 Local Open Scope R_scope.
 
@@ -214,3 +214,23 @@ Qed.
 (* the unit square of ConvexFacts is such a shape *)
 Example square_is_a_convex_closed_shape : convex 1 (square 0 0) /\ closed (square 0 0) /\ square 0 0 <> [].
 Proof. split; [apply square_convex|]. split; [apply square_closed|discriminate]. Qed.
+
+(* C01 for the built-in regular polygons (LineShape::polygon(n), n >= 3), no premise about the shape left:
+   in a scored state two placed copies share no interior point, up to nesting *)
+Theorem scored_regular_polygon_packing_no_overlap (st : pstateR) (n : nat) (fmin_ : R) :
+  (3 <= n)%nat ->
+  wf_state st -> rigid_inputs st -> p_shape NumR st = Poly (polygon NumR PI sin cos n) ->
+  p_radius NumR st = shape_radius NumR fmin_ (p_shape NumR st) ->
+  packed_score NumR st <> None ->
+  forall i j (a b : Z), (i < length (p_syms NumR st))%nat -> (j < length (p_syms NumR st))%nat ->
+  ~ (i = j /\ a = 0%Z /\ b = 0%Z) ->
+  let l := polygon NumR PI sin cos n in
+  let P := placed_poly (copy st i) l in let Q := placed_poly (image st j a b) l in
+  forall x, strictly_inside (-1 * det2 (copy st i)) P x -> strictly_inside (-1 * det2 (image st j a b)) Q x ->
+     (forall e, In e P -> strictly_inside (-1 * det2 (image st j a b)) Q (seg_start e))
+  \/ (forall f, In f Q -> strictly_inside (-1 * det2 (copy st i)) P (seg_start f)).
+Proof.
+  intros Hn Hwf Hri Hshape Hrad Hscore i j a b Hi Hj Hd l P Q x HxP HxQ.
+  apply (scored_convex_shape_packing_no_overlap st l fmin_ (-1) Hwf Hri Hshape
+           (polygon_nonempty n Hn) (polygon_convex n Hn) (polygon_closed n Hn) Hrad Hscore i j a b Hi Hj Hd x HxP HxQ).
+Qed.
